@@ -32,9 +32,9 @@ theorem T17_pauli_kronecker_step {conj : α → α} {im : α} (h : ConjOK conj i
 
 /-- full statement of "the comp→Pauli matrix `B` is `√d` times a unitary, hence
 `pauli_to_liouville ∘ liouville_to_pauli = d² · id`": both `B B† = d·1` and `B† B = d·1`.
-Only the first half is proved below (`T17_pauli_unitary_partial`); the second half (completeness
-of the Pauli strings) and the `d²` round trip are covered by the numeric search on the real
-code (`C17_search_basis`, `C17_search_roundtrip`). -/
+The first half is `T17_pauli_unitary_partial` below; the second half (completeness of the Pauli
+strings), the whole statement (`T17_pauli_unitary_full_proved`) and the round trips with the
+exact factor per `normalize` flag are proved in part c (QV/Props/C17c.lean). -/
 def T17_pauli_unitary_full (conj : α → α) (im : α) (po : List Nat) (o : Order) (n : Nat) : Prop :=
   (∀ k l, k < 4 ^ n → l < 4 ^ n →
     matMul (4 ^ n) (compToPauli conj im po o n) (conjT conj (compToPauli conj im po o n)) k l
